@@ -1087,6 +1087,94 @@ def r6_link(program, rep):
 r2_pairing.helper_aware = True
 r5_connection.helper_aware = True
 
+def r5_first_board(program, rep):
+    """A BMP command addressed to several boards goes to the FIRST board the
+    caller named (documented), over that board's connection: the board
+    handed to _send_scp is the caller's board, or element 0 of the boards in
+    the order given - not of a sorted or otherwise re-ordered copy."""
+    from ..terms import one_level
+    fn = program.get(BMP + ":BMPController.set_led")
+    inst = qual(fn)
+    T = Terms(fn)
+    cs = calls_in(fn, "_send_scp")
+    if len(cs) != 1 or len(cs[0].args) < 3:
+        raise AnalysisError("set_led: the command is not sent by one "
+                            "_send_scp(cabinet, frame, board, ...)")
+    n = T.cfg.node_containing(cs[0])
+    v = T.term(cs[0].args[2], n)
+    B = ("param", "board")
+    alts = [plain(x) for x in (one_level(v) if v[0] in ("mu", "phi")
+                               else [v])]
+
+    def order_of(x, depth=0):
+        """'given' / 'changed' / None for a term holding the boards."""
+        if x == B:
+            return "given"
+        if x[0] == "new":
+            x = x[2]
+        if x[0] in ("call", "callv") and x[1] in (
+                ("global", "list"), ("global", "tuple")) and \
+                len(x[2]) == 1:
+            return order_of(plain(x[2][0]), depth)
+        if x[0] in ("listcomp", "genexp") and len(x[2]) == 1 and \
+                not x[2][0][1] and x[1] == ("elem", x[2][0][0]):
+            return order_of(plain(x[2][0][0]), depth)
+        if x[0] in ("call", "callv") and x[1] in (
+                ("global", "sorted"), ("global", "set"),
+                ("global", "frozenset"), ("global", "reversed")):
+            return "changed"
+        if x[0] in ("call", "callv") and x[1][0] in ("local", "global") \
+                and depth < 2:
+            # a helper (nested, or of the module): what it returns
+            h = [d for d in ast.walk(fn) if isinstance(d, ast.FunctionDef)
+                 and d.name == x[1][1]]
+            if not h:
+                d_ = fn._module.defs.get(x[1][1])
+                h = [d_] if isinstance(d_, ast.FunctionDef) else []
+            if len(h) == 1 and len(x[2]) == 1 and \
+                    len(formals(h[0])) == 1:
+                HT = Terms(h[0])
+                outs = set()
+                from ..terms import subst_params
+                for r in returns_of(h[0]):
+                    if r.value is None:
+                        return None
+                    rt = subst_params(plain(HT.term(
+                        r.value, HT.cfg.node_of(r))),
+                        {formals(h[0])[0]: plain(x[2][0])})
+                    if rt[0] == "new":
+                        rt = rt[2]
+                    if rt[0] == "list" and len(rt) == 2 and rt[1] == B:
+                        continue        # [board]: the single board
+                    outs.add(order_of(rt, depth + 1))
+                if outs and None not in outs:
+                    return "changed" if "changed" in outs else "given"
+        return None
+    verdicts = []
+    for a in alts:
+        if a == B:
+            verdicts.append("given")
+        elif a[0] == "comp" and a[2] == 0:
+            verdicts.append(order_of(a[1]))
+        elif a[0] == "elem":
+            verdicts.append(None)
+        else:
+            verdicts.append(None)
+    if None in verdicts and "changed" not in verdicts:
+        raise AnalysisError("set_led: which board the command is sent to is "
+                            "not read")
+    rep.check("changed" not in verdicts, "C18-R5", inst, "a command for "
+              "several boards is sent to the first board named by the "
+              "caller", construct="first board", node=cs[0],
+              fail="the board the command is sent to is element 0 of a "
+                   "re-ordered copy of the caller's boards (sorted / a "
+                   "set): not the first board named, so the datagram goes "
+                   "to another board and over another board's connection")
+
+
+r5_first_board.helper_aware = True
+
+
 def check(program, rep):
     program.module(CX)
     program.module(MC)
@@ -1098,6 +1186,7 @@ def check(program, rep):
     rep.guard("C18-R3", r3_roles, program, rep)
     rep.guard("C18-R4", r4_satisfiable, program, rep)
     rep.guard("C18-R5", r5_connection, program, rep)
+    rep.guard("C18-R5", r5_first_board, program, rep)
     rep.guard("C18-R6", r6_link, program, rep)
     # the destination reaches the wire in the documented header bytes and
     # widths (C15-R1/R2: a core number needs all five bits of its field)
